@@ -55,38 +55,113 @@ def _strcat(ex, fr, a, b):
     return VStr(z3.Concat(a.t, b.t))
 
 
+class _Pair(Desc):
+    """value of forward_refs: the pair (reference, constraints)"""
+    name = "(ForwardRef, constraints)"
+
+    def unbox(self, ex, t):
+        v = VTup([VObj(z3.Select(sym.seq_arr(t), 0)), VObj(z3.Select(sym.seq_arr(t), 1))])
+        v.ref = t
+        return v
+
+
+class _RefsD(type(DICT)):
+    name = "dict[str, (ForwardRef, constraints)]"
+
+    def fresh(self, ex, pname):
+        m = type(DICT).fresh(self, ex, pname)
+        m.val_desc = _Pair()
+        ex.assume(ex.forall(0, m.n, lambda i: z3.And(
+            z3.Select(m.keys, i) == sym.box_str(sym.unbox_str(z3.Select(m.keys, i))), sym.seq_len(z3.Select(m.vals, i)) == 2)))
+        return m
+
+
+REFS = _RefsD()
 _KEY = "(strcat('$', forward_key) if (forward_key is not None and len(forward_key) > 0) else annotation.__forward_arg__)"
+
+
+@specfn("pending_ref")
+def _pending_ref(ex, fr, refs, annotation):
+    """some entry of forward_refs holds this very reference object: it will be evaluated by resolve_forward_refs"""
+    a = ex.box(annotation)
+    return VBool(ex.exists(0, refs.n, lambda i: z3.And(
+        sym.seq_len(z3.Select(refs.vals, i)) == 2, z3.Select(sym.seq_arr(z3.Select(refs.vals, i)), 0) == a)))
+
+
+_maxkeylen = z3.Function("max_key_length", sym.ARR, I, I)
+
+
+@specfn("max_key_length")
+def _max_key_length(ex, fr, refs):
+    """ghost: an upper bound of the length of every (string) key of the mapping"""
+    t = _maxkeylen(refs.keys, refs.n)
+    ex.side(ex.forall(0, refs.n, lambda i: z3.Length(sym.unbox_str(z3.Select(refs.keys, i))) <= t))
+    ex.side(t >= 0)
+    return VInt(t)
+
+
+_REMEMBERED = {"reference_is_pending": "pending_ref(forward_refs, annotation)",
+               "first_under_its_key_is_stored_there": "implies(not old(has_str_key(forward_refs, %s)), "
+                                                      "registered_pair(forward_refs, %s, annotation, constraints))" % (_KEY, _KEY),
+               "earlier_references_stay_pending": "forall(old(len(forward_refs)), lambda i: at_entry_kept(forward_refs, old(snap(forward_refs)), i))",
+               "returns_the_reference": "result is annotation"}
+
+
+_evaluated_in = z3.Function("evaluated_in_namespace", V, V, B)
+
+
+@specfn("evaluated_in")
+def _evaluated_in_fn(ex, fr, ref, namespace):
+    """ghost: the value this reference carries was obtained by evaluating its name in THIS namespace.  Nothing in
+    register_forward_ref can establish it for a reference that arrives already evaluated: typing caches generic
+    aliases, so the ForwardRef inside Optional['B'] is one object shared by every module that writes Optional['B']."""
+    return VBool(_evaluated_in(ex.box(ref), ex.box(namespace)))
+
+
+@specfn("at_entry_kept")
+def _at_entry_kept(ex, fr, refs, old, i):
+    """entry i of the old mapping is still there, key and value"""
+    it = i.t if isinstance(i, VInt) else z3.IntVal(i)
+    return VBool(z3.And(it < refs.n, z3.Select(refs.keys, it) == z3.Select(old.keys, it), z3.Select(refs.vals, it) == z3.Select(old.vals, it)))
 
 
 @contract(R, "register_forward_ref", props=["C17"])
 class REGISTER_FORWARD_REF:
-    """R1: a reference that cannot be evaluated yet is REMEMBERED: after the call forward_refs holds the
-    pair (reference, constraints) under the key of this declaration site ($attname when a site key is
-    given -- two attributes may name the same class with different constraints -- else the name)."""
+    """R1: a reference that cannot be evaluated yet is REMEMBERED: after the call some entry of forward_refs
+    holds this very reference object (so resolve_forward_refs will evaluate it), whatever was registered
+    before -- in particular another reference object with the same name, which is what "the same name used
+    in several annotations" (List['B'] next to Optional['B']) produces; the first reference under a key
+    sits under that key ($attname when a site key is given, else the name); nothing registered earlier is lost."""
     cases = {"unevaluated,no-globals,site-key": dict(annotation=Rec("ForwardRef", __forward_evaluated__=FALSE), constraints=OBJ,
-                                                   global_vars=NONE, forward_refs=DICT, forward_key=STR, force_clear=BOOL, evaluate_only=FALSE),
+                                                   global_vars=NONE, forward_refs=REFS, forward_key=STR, force_clear=BOOL, evaluate_only=FALSE),
              "unevaluated,no-globals,no-site-key": dict(annotation=Rec("ForwardRef", __forward_evaluated__=FALSE), constraints=OBJ,
-                                                      global_vars=NONE, forward_refs=DICT, forward_key=NONE, force_clear=BOOL, evaluate_only=FALSE),
+                                                      global_vars=NONE, forward_refs=REFS, forward_key=NONE, force_clear=BOOL, evaluate_only=FALSE),
              "unevaluated,no-globals,site-key,no-constraints": dict(annotation=Rec("ForwardRef", __forward_evaluated__=FALSE), constraints=NONE,
-                                                                  global_vars=NONE, forward_refs=DICT, forward_key=STR, force_clear=BOOL, evaluate_only=FALSE),
+                                                                  global_vars=NONE, forward_refs=REFS, forward_key=STR, force_clear=BOOL, evaluate_only=FALSE),
              "evaluated": dict(annotation=Rec("ForwardRef", __forward_evaluated__=TRUE), constraints=OBJ, global_vars=NONE,
-                               forward_refs=DICT, forward_key=STR, force_clear=BOOL, evaluate_only=FALSE)}
-    requires = {"first_registration_under_this_key": "not has_str_key(forward_refs, %s)" % _KEY}
+                               forward_refs=REFS, forward_key=STR, force_clear=BOOL, evaluate_only=FALSE),
+             "evaluated,own-namespace-given": dict(annotation=Rec("ForwardRef", __forward_evaluated__=TRUE), constraints=OBJ, global_vars=OBJ_NN,
+                                                   forward_refs=REFS, forward_key=STR, force_clear=BOOL, evaluate_only=FALSE)}
     returns_by_case = {
-        "unevaluated,no-globals,site-key": {"remembered": "registered_pair(forward_refs, %s, annotation, constraints)" % _KEY,
-                                            "returns_the_reference": "result is annotation"},
-        "unevaluated,no-globals,no-site-key": {"remembered": "registered_pair(forward_refs, %s, annotation, constraints)" % _KEY,
-                                               "returns_the_reference": "result is annotation"},
-        "unevaluated,no-globals,site-key,no-constraints": {"remembered": "registered_pair(forward_refs, %s, annotation, constraints)" % _KEY,
-                                                           "returns_the_reference": "result is annotation"},
+        "unevaluated,no-globals,site-key": _REMEMBERED,
+        "unevaluated,no-globals,no-site-key": _REMEMBERED,
+        "unevaluated,no-globals,site-key,no-constraints": _REMEMBERED,
         "evaluated": {"returns_the_value": "result is annotation.__forward_value__",
                       "nothing_registered": "len(forward_refs) == old(len(forward_refs))"},
+        # "exactly as the equivalent declaration written with direct references": the class a name stands for is the one
+        # of the declaring namespace
+        "evaluated,own-namespace-given": {"value_belongs_to_the_declaring_namespace": "evaluated_in(annotation, global_vars)",
+                                          "nothing_registered": "len(forward_refs) == old(len(forward_refs))"},
     }
+    loops = {0: dict(invariant={"registry_untouched": "len(forward_refs) == old(len(forward_refs)) and "
+                                                      "forall(old(len(forward_refs)), lambda i: at_entry_kept(forward_refs, old(snap(forward_refs)), i))",
+                                "key_is_text": "len(key) >= 0",
+                                "a_free_key_is_used_as_it_is": "implies(not old(has_str_key(forward_refs, %s)), key == %s)" % (_KEY, _KEY)},
+                     decreases="max_key_length(forward_refs) + 1 - len(key)")}
     only_raises = []
     modifies = ["forward_refs"]
     assumes = ["global_vars not given (with globals the reference is first tried through typing's evaluator: external)",
-               "the caller uses one key per reference: a second, different ForwardRef registered under the SAME key is kept out "
-               "by setdefault (known limitation of the callers, DESIGN section 6 #19; not claimed)"]
+               "the keys of forward_refs are strings and its values (reference, constraints) pairs, as every caller builds them"]
 
 
 @contract(R, "resolve_forward_type", props=["C17"])
@@ -197,3 +272,75 @@ class RESOLVE_FORWARD_REFS:
         rc = frame.env["self"].fields["rule_cls"]
         for nm in ("parse_annotation", "annotate"):
             ex.assume(sym.hasattr_f(sym.ty(rc.t), z3.StringVal(nm)))
+
+
+# ------------------------------------------------------------------------------------ ClassParser.globals (self name injection)
+
+CP = "utype/parser/cls.py"
+
+
+class _GlobalsParserModel(RecordModel):
+    """a ClassParser as `globals` sees it: the declared class (`obj`, with its __name__ / __qualname__) and the
+    namespace the inherited BaseParser.globals property returns (`base_globals`: the module's __dict__ or the
+    function's __globals__ -- external, read as given)."""
+
+    def super_view(self, ex, rec):
+        ex.world.ext.use(ex, "BaseParser.globals (inherited property): the declaring module's namespace, read as given")
+        return VRec(ex.world.models["GlobalsSuperView"], {"globals": rec.fields["base_globals"]}, ref=ex.fresh("super_view", V))
+
+
+def _install4(world):
+    world.models["DeclaredClass"] = RecordModel(world, CP, "<declared class>", dict(__name__=STR, __qualname__=OBJ))
+    world.models["GlobalsSuperView"] = RecordModel(world, B_, "BaseParser", dict(globals=NONE))
+    from pyvc.sym import VOpaque
+    world.ext_table["utype.settings.warning_settings"] = VOpaque("warning_settings")      # only .warn(...) is used: a dropped call
+    world.models["GlobalsParser"] = _GlobalsParserModel(world, CP, "ClassParser",
+                                                        dict(obj=Rec("DeclaredClass"), base_globals=NONE))
+
+
+_C.INSTALLERS.append(_install4)
+
+
+class _StrKeyedNamespace(type(DICT)):
+    name = "namespace (dict with string keys)"
+
+    def fresh(self, ex, pname):
+        m = type(DICT).fresh(self, ex, pname)
+        ex.assume(ex.forall(0, m.n, lambda i: z3.Select(m.keys, i) == sym.box_str(sym.unbox_str(z3.Select(m.keys, i)))))
+        ex.assume(ex.forall(0, m.n, lambda j: ex.forall(0, j, lambda i: z3.Select(m.keys, i) != z3.Select(m.keys, j))))
+        return m
+
+
+@specfn("maps_name_to")
+def _maps_name_to(ex, fr, m, name, obj):
+    kb, ob = ex.box(name), ex.box(obj)
+    return VBool(ex.exists(0, m.n, lambda i: z3.And(z3.Select(m.keys, i) == kb, z3.Select(m.vals, i) == ob)))
+
+
+@specfn("other_names_as_in")
+def _other_names_as_in(ex, fr, m, base, name):
+    """every other name of the base namespace is bound to the same object, and nothing else was added"""
+    kb = ex.box(name)
+    kept = ex.forall(0, base.n, lambda i: z3.Implies(z3.Select(base.keys, i) != kb, ex.exists(0, m.n, lambda j: z3.And(
+        z3.Select(m.keys, j) == z3.Select(base.keys, i), z3.Select(m.vals, j) == z3.Select(base.vals, i)))))
+    nonew = ex.forall(0, m.n, lambda j: z3.Implies(z3.Select(m.keys, j) != kb, ex.exists(0, base.n, lambda i: z3.And(
+        z3.Select(m.keys, j) == z3.Select(base.keys, i), z3.Select(m.vals, j) == z3.Select(base.vals, i)))))
+    return VBool(z3.And(kept, nonew))
+
+
+@contract(CP, "ClassParser.globals", props=["C17", "C19"])
+class CLASS_PARSER_GLOBALS:
+    """the namespace in which a data class's references are evaluated: the declaring module's names, except
+    that the class's OWN name always stands for the class itself (self-reference of a class that is not, or
+    not yet, a module global -- a local class, a class being replaced by a decorator, a name shadowed by something
+    else).  The module's namespace itself is not written to."""
+    cases = {"any": dict(self=Rec("GlobalsParser", base_globals=_StrKeyedNamespace()))}
+    result = DICT
+    returns = {"own_name_is_the_class_itself": "maps_name_to(result, self.obj.__name__, self.obj)",
+               "every_other_name_as_in_the_module": "other_names_as_in(result, self.base_globals, self.obj.__name__)",
+               "a_namespace_of_its_own": "fresh(result)"}
+    only_raises = []
+    frame = ["self"]
+    tags = {"a_namespace_of_its_own": ["C19", "C17"], "no_input_mutation": ["C19", "C17"]}
+    assumes = ["warning_settings.warn does not raise (dropped call)",
+               "BaseParser.globals returns the declaring namespace (sys.modules[...].__dict__ / __globals__: external)"]
